@@ -199,6 +199,9 @@ func main() {
 		}
 		x.BFS(j.Depth, menu(j), 600000, nil)
 		runLoopReplay(r, w, j)
+		if i == si {
+			saturation(r, w)
+		}
 		r.Add("states", x.States)
 		r.Add("transitions", x.Transitions)
 		r.Add("traces_validated_against_impl", x.Builds)
@@ -334,5 +337,39 @@ func compareRunLoop(r *ev.Run, w *proch.World, c *proch.Config, h []proch.Event)
 	rn.Close()
 	if k1 != k2 || outs1 != outs2 {
 		r.Violation("C13 run-loop: the real Run loop and the one-iteration dispatch hook disagree (harness binding broken or Run does more than dispatch)", fmt.Sprintf("%v: %s vs %s, outputs %d vs %d", pretty, k1, k2, outs1, outs2), proch.Replay{Config: *c, History: h, Pretty: pretty, Oracle: "C13-run-loop"})
+	}
+}
+
+// saturation: deep-but-narrow scripted histories that the depth-bounded search cannot reach: a guardian
+// set of N members (also beyond the documented maximum of 19 - the set comes from chain and the
+// processor takes whatever arrives) and valid observations of one digest by EVERY member, with the local
+// observation before, in the middle, after, or never; followed by a set change and a cleanup tick.
+func saturation(r *ev.Run, w *proch.World) {
+	for _, n := range []int{1, 2, 4, 13, 19, 20, 21, 32, 64, 255} {
+		for _, when := range []string{"never", "first", "middle", "last"} {
+			c := proch.Config{Name: fmt.Sprintf("saturation-n%d-msg-%s", n, when), Sets: [][]int{rng(0, n), rng(1, n+1)}, OwnKey: 0, Msgs: msgs()}
+			var h []proch.Event
+			h = append(h, proch.Event{Kind: "set", Set: 0})
+			msg := []proch.Event{{Kind: "msg", M: 0}, {Kind: "lb", LB: 0}}
+			if when == "first" {
+				h = append(h, msg...)
+			}
+			for g := 0; g < n; g++ {
+				if when == "middle" && g == n/2 {
+					h = append(h, msg...)
+				}
+				if g != 0 || when == "never" {
+					h = append(h, proch.Event{Kind: "obs", G: g, D: 0})
+				}
+			}
+			if when == "last" {
+				h = append(h, msg...)
+			}
+			h = append(h, proch.Event{Kind: "tick", DtSec: 31}, proch.Event{Kind: "set", Set: 1}, proch.Event{Kind: "obs", G: n, D: 0}, proch.Event{Kind: "tick", DtSec: 360}, proch.Event{Kind: "tick", DtSec: 7200})
+			x := &proch.Explorer{R: r, W: w, C: &c, Oracles: map[string]bool{"C13": true}, WithTimes: true}
+			x.Run(h).Close()
+			r.Add("transitions", len(h))
+			r.Add("saturation_histories", 1)
+		}
 	}
 }
